@@ -4,7 +4,7 @@ PROP = {
     "modules": [],
     "level": "proof",
     "streams": [{"name": "scope"}],
-    "rule": "scope: (1) 13 hand-written scoping situations (assign inside a block / an iteration, loop variable and forloop "
+    "rule": "scope: (1) 15 hand-written scoping situations (a variable assigned the forloop record keeps the values of that moment, assign inside a block / an iteration, loop variable and forloop "
             "after normal exit and after break, nested loops over one name, capture of a loop, capture inside a loop, a user "
             "variable or a loop variable called forloop, tablerow, empty loop with else); (2) 20000 (quick) / 200000 (thorough) "
             "generated programs interleaving assign, capture, for/tablerow (loop variables drawn from the assigned names a, b, c, "
